@@ -35,20 +35,21 @@ type Scenario struct {
 
 // ChainParams of one generated chain.
 type ChainParams struct {
-	Scenario   *Scenario
-	Dir        string
-	Name       string
-	Seed       uint64
-	Rng        *hx.Rng
-	Epochs     int
-	Plain      bool // plain minimal preset (forks only)
-	Corrupt    int  // number of corrupted blocks to derive
-	Cancel     int  // number of steps to run the cancellation sweep on
-	Engine     int  // number of steps to run the engine verdict sweep on
-	Genesis    int  // number of adversarial genesis records
-	ForkBias   string
-	WideForks  bool
-	OddVectors bool
+	Scenario      *Scenario
+	Dir           string
+	Name          string
+	Seed          uint64
+	Rng           *hx.Rng
+	Epochs        int
+	Plain         bool // plain minimal preset (forks only)
+	Corrupt       int  // number of corrupted blocks to derive
+	Cancel        int  // number of steps to run the cancellation sweep on
+	Engine        int  // number of steps to run the engine verdict sweep on
+	Genesis       int  // number of adversarial genesis records
+	ForkBias      string
+	WideForks     bool
+	OddVectors    bool
+	ZeroHashMerge int // 1 = the merge block carries block_hash 0, 0 = random per chain, -1 = never
 	// Retry: regenerate with another sub-seed (at most 6 times) until this counter is non-zero
 	RetryUntil  string
 	GenesisOnly bool // directory with genesis records only (C13 stream)
@@ -136,6 +137,7 @@ func generateOnce(pr ChainParams) (res ChainResult) {
 		slashedSet: map[common.ValidatorIndex]bool{}, exitSet: map[common.ValidatorIndex]bool{}, activated: map[common.ValidatorIndex]bool{},
 		aggDone: map[common.Root]bool{}, Epochs: pr.Epochs, Absent: map[common.ValidatorIndex]bool{}, justified: map[common.Epoch]bool{}, modeOf: map[common.Epoch]string{}}
 	c.OpRate = sc.Rates
+	c.ZeroHashMerge = pr.ZeroHashMerge > 0 || pr.ZeroHashMerge == 0 && c.Rng.Chance(35)
 	res.Stats = c.Stats
 	rec.Comment(fmt.Sprintf("chain %s scenario=%s seed=%d epochs=%d", pr.Name, sc.Name, pr.Seed, pr.Epochs))
 	gk := sc.Gen
